@@ -1,6 +1,7 @@
 import DaskModel.Model.Rename
 import DaskModel.Lemmas.TaskTerm
 import DaskModel.Lemmas.RenameLayer
+import DaskModel.Lemmas.RenameLegacy
 import DaskModel.Lemmas.RenameBind
 import DaskModel.Lemmas.RenameBlockwise
 import DaskModel.Lemmas.RenameCheckpoint
@@ -8,9 +9,18 @@ import DaskModel.Lemmas.RenameCheckpoint
 # C16 — graph manipulation keeps values and changes only keys and ordering
 
 Model: `Dask.TaskTerm` (Model/Rename.lean): `clone`/`bind` regenerate keys with `clone_key(·, seed)` — modelled as a
-renaming `ρ` that is assumed injective (hash collision freedom of `tokenize`) — rewrite every reference
+renaming `ρ` that is assumed injective and fresh (hash collision freedom of `tokenize`) — rewrite every reference
 (`renameNode` = `GraphNode.substitute`, `cloneValue` = `Layer.clone.clone_value`) and wrap the regenerated leaves in
 `chunks.bind(node, blocker)`; `checkpoint` aggregates with `chunks.checkpoint` in a tree (`checkpointReduce`).
+
+Sections (helper lemmas live in Lemmas/Rename*.lean; every model function named here is run against the real function
+by harness/props/c16.py):
+* key regeneration of single nodes / whole graphs under a globally injective renaming: `clone_values`,
+  `clone_keys_disjoint`, `bind_values`, `bind_waits`;
+* `Layer.clone` as a whole (`cloneSpecLayer`, `cloneLegacyLayer`): `layer_clone_*`, `legacy_clone_*`;
+* `_bind_one`'s bookkeeping over layer names (`bindOne`): `bind_one_*`;
+* `checkpoint`: `checkpoint_reaches_all`, `checkpoint_none`, fuel and shape of the tree (`checkpoint_fuel_*`, `checkpoint_shape`);
+* `Blockwise.clone` (`blockwiseLeaf`, `blockwiseClone`): `blockwiseLeaf_*`, `blockwise_clone_*`.
 -/
 namespace Dask.C16
 open Dask.TaskTerm
@@ -197,6 +207,20 @@ theorem legacy_clone_leaf_wrapped {keys : List Obj} (ρ : Obj → Obj) (allKeys 
   rw [cloneLegacyEntryB_leaf ρ (.str s) bindFn hk hl]
   exact ⟨rfl, legacy_bound_refs_blocker allKeys bindFn _ (.str s) hf rfl hb rfl (fun _ h => by cases h) (fun _ h => by cases h)⟩
 
+/-- **`Layer.clone` keeps the values of a legacy layer** (no blocker) under the statement's legacy semantics
+    (`evalKeyL`: calls, elementwise lists and dicts, key-typed hashable values equal to a key are references): fuel for
+    fuel, the cloned layer computes under the regenerated key what the original computes under `k`. `LegacyCtx`: the
+    universe contains the keys and the key-like atoms of the values, the applied renaming is injective on it, keys and
+    regenerated keys are key-typed hashable non-task objects, entries that are not regenerated do not refer to
+    regenerated keys. (With a blocker the legacy wrapper `(chunks.bind, value, blocker)` calls a function the legacy
+    model leaves uninterpreted; that case is covered on the task-spec side by `layer_clone_bound_values`.) -/
+theorem legacy_clone_values {keys D : List Obj} {ρ : Obj → Obj} {g : LGraph} (H : LegacyCtx keys D ρ g) (bindFn : Obj)
+    (cache cache' : Obj → Option Obj) (hc : ∀ k ∈ D, cache' (keyedRho keys ρ k) = cache k) (fuel : Nat) :
+    ∀ k ∈ D,
+      evalKeyL (cloneLegacyLayer keys ρ none bindFn g).1 ((cloneLegacyLayer keys ρ none bindFn g).1.map Prod.fst) cache' fuel
+        (keyedRho keys ρ k) = evalKeyL g (g.map Prod.fst) cache fuel k :=
+  cloneLegacyLayer_values H bindFn cache cache' hc fuel
+
 theorem legacy_clone_untouched {keys : List Obj} (ρ : Obj → Obj) (bindTo : Option Obj) (bindFn : Obj) {k : Obj} (v : Obj)
     (hk : k ∉ keys) : cloneLegacyEntryB keys ρ bindTo bindFn k v = ((k, v), false) :=
   cloneLegacyEntryB_outside ρ bindTo bindFn v hk
@@ -224,6 +248,17 @@ example : cloneSpecLayer exKeys exRho (some (.str "blk")) exG =
       (.str "o", .data (.int 7))], true) := by rfl
 example : (cloneSpecLayer exKeys exRho none exG).2 = false := by rfl
 example : legacyRefs [.str "a"] (.tuple [.fn 0, .int 1]) = [] := by decide
+/-- non-vacuity of `legacy_clone_values`: `a = (f0, 1)`, `b = (f1, a, [o, {"x": a}])`, `o = 7` omitted -/
+def exLG : LGraph :=
+  [(.str "a", .tuple [.fn 0, .int 1]),
+   (.str "b", .tuple [.fn 1, .str "a", .list [.str "o", .dict [(.str "x", .str "a")]]]),
+   (.str "o", .int 7)]
+example : LegacyCtx exKeys [.str "a", .str "b", .str "o", .int 1, .int 7] exRho exLG :=
+  ⟨by decide, by decide, keyedRho_inj_on _ _ _ (by decide) (by decide), by decide, by decide, by decide, by decide⟩
+example : (cloneLegacyLayer exKeys exRho none (.fn 99) exLG).1 =
+    [(.str "a'", .tuple [.fn 0, .int 1]),
+     (.str "b'", .tuple [.fn 1, .str "a'", .list [.str "o", .dict [(.str "x", .str "a'")]]]),
+     (.str "o", .int 7)] := by decide
 end LayerExample
 
 /-! ### `_bind_one`: the bookkeeping over layer names (graph_manipulation.py 328-408)
@@ -362,6 +397,51 @@ theorem bind_one_order_independent (h : BindInput G child ρ blk B)
 
 end BindOne
 
+/-- `b` is reachable from `a` along the dependency map of a HighLevelGraph -/
+inductive DepPath (deps : List (Obj × List Obj)) : Obj → Obj → Prop
+  | direct {a b : Obj} {ds : List Obj} : deps.lookup a = some ds → b ∈ ds → DepPath deps a b
+  | step {a m b : Obj} {ds : List Obj} : deps.lookup a = some ds → m ∈ ds → DepPath deps m b → DepPath deps a b
+
+/-- **every regenerated layer runs after the checkpoint**: in the HighLevelGraph that `bind` returns, the checkpoint
+    layer is reachable from every regenerated layer along `dependencies` — directly for the layers `Layer.clone` bound,
+    through a regenerated input for the others. Assumes the child's graph is acyclic (`rank`) and that `Layer.clone`
+    binds every regenerated layer that has no regenerated input (`hleaf`; `layer_clone_leaf_wrapped` /
+    `blockwiseLeaf_of_all_omitted` are the per-layer facts behind it). -/
+theorem bind_one_regenerated_reaches_blocker {G : LayerMap} {om child : List Obj} {ρ : Obj → Obj} {b : Obj}
+    {B : List (Obj × List Obj)} {sel1 sel2 : List Obj → Nat} {fuel : Nat} {acc : BindAcc}
+    (h : BindInput G child ρ (some b) B) (hr : bindOne G child om ρ (some b) B sel1 sel2 fuel = .ok acc)
+    (rank : Obj → Nat) (hrank : ∀ l ds leaf, G.lookup l = some (ds, leaf) → ∀ d ∈ ds, rank d < rank l)
+    (hleaf : ∀ l ds leaf, Regen G om child l → G.lookup l = some (ds, leaf) → (∀ d ∈ ds, d ∈ om) → leaf = true) :
+    ∀ l, Regen G om child l → DepPath acc.deps (ρ l) b := by
+  obtain ⟨verb, acc1, I1, I2⟩ := bindOne_invs h.hyp hr
+  have key : ∀ n l, rank l = n → Regen G om child l → DepPath acc.deps (ρ l) b := by
+    intro n
+    induction n using Nat.strongRecOn with
+    | _ n ih =>
+      intro l hn hl
+      have hin := hl.inG h.hyp.wf
+      cases hG : G.lookup l with
+      | none => rw [hG] at hin; cases hin
+      | some e =>
+        obtain ⟨ds, leaf⟩ := e
+        have hdeps := res_regen_deps h.hyp I1 I2 hl hG
+        by_cases hall : ∀ d ∈ ds, d ∈ om
+        · have := hleaf l ds leaf hl hG hall
+          exact DepPath.direct hdeps (mem_newDepOf.mpr (Or.inr (Or.inr ⟨this, rfl⟩)))
+        · have : ∃ d, d ∈ ds ∧ d ∉ om := by
+            apply Classical.byContradiction
+            intro hne
+            apply hall
+            intro d hd
+            apply Classical.byContradiction
+            intro hdo
+            exact hne ⟨d, hd, hdo⟩
+          obtain ⟨d, hd, hdo⟩ := this
+          have hlt := hrank l ds leaf hG d hd
+          exact DepPath.step hdeps (mem_newDepOf.mpr (Or.inl ⟨d, hd, hdo, rfl⟩))
+            (ih (rank d) (hn ▸ hlt) d rfl (Regen.step hl hG hd hdo))
+  exact fun l hl => key (rank l) l rfl hl
+
 /-! non-vacuity: `z = f(y, w)`, `y = g(x)`, `w = h(x)`, `x = k(src)`; omit `x`; blocker `cp` over a parent `p` -/
 section BindExample
 def bxG : LayerMap :=
@@ -385,6 +465,20 @@ example : bindOne bxG [.str "z"] [.str "x"] exRho (some (.str "cp")) bxB (fun _ 
           (.str "y'", .cloned (.str "y") true), (.str "w'", .cloned (.str "w") true), (.str "x", .verbatim), (.str "src", .verbatim)],
          [(.str "cp", [.str "p"]), (.str "p", []), (.str "z'", [.str "y'", .str "w'"]), (.str "y'", [.str "x", .str "cp"]),
           (.str "w'", [.str "x", .str "cp"]), (.str "x", [.str "src"]), (.str "src", [])]⟩ := by rfl
+/-- hypotheses of `bind_one_regenerated_reaches_blocker` on the example: a rank function, and every layer all of whose
+    inputs are omitted is flagged as a leaf -/
+def bxRank : Obj → Nat
+  | .str "z" => 3 | .str "y" => 2 | .str "w" => 2 | .str "x" => 1 | _ => 0
+example : ∀ l ds leaf, bxG.lookup l = some (ds, leaf) → ∀ d ∈ ds, bxRank d < bxRank l := by
+  intro l ds leaf h
+  have hm := mem_of_lookup bxG l _ h
+  have : ∀ e ∈ bxG, ∀ d ∈ e.2.1, bxRank d < bxRank e.1 := by decide
+  exact this _ hm
+example : ∀ l ds leaf, Regen bxG [.str "x"] [.str "z"] l → bxG.lookup l = some (ds, leaf) → (∀ d ∈ ds, d ∈ [Obj.str "x"]) → leaf = true := by
+  intro l ds leaf _ h
+  have hm := mem_of_lookup bxG l _ h
+  have : ∀ e ∈ bxG, (∀ d ∈ e.2.1, d ∈ [Obj.str "x"]) → e.2.2 = true := by decide
+  exact this _ hm
 /-- the known finding at model level: a child that is itself omitted is regenerated all the same (`Regen.base`) -/
 example : Regen bxG [.str "z"] [.str "z"] (.str "z") := Regen.base (by simp)
 end BindExample
